@@ -273,7 +273,9 @@ void h_reset(void) {
     if (in.frame[F_TOS] == 0) {
         V_ASSERT(ST->see_list == 0 && ST->see_list_count == 0, "C07,C09: a Reset discards the observation record");
         V_ASSERT(ST->small_icon == 0 && ST->small_icon_size == 0, "C09: a Reset drops the cached icon");
-        /* sequence / generation numbers need not be zeroed: whether a stale value can influence anything sent later is decided by the two-world queries */
+        /* sequence / generation numbers need not be zeroed: whether a stale value can influence anything sent later is decided by the
+         * two-world queries. This auxiliary condition only tells the driver which relation those queries may start from. */
+        V_ASSERT(ST->mapper_seq == 0 && ST->mapper_gen_topology == 0 && ST->mapper_gen_quick == 0, "AUX:reset_zeroes_seq_gen");
         V_ASSERT(g_live_blocks == 2 && g_live_bytes == sizeof(lltd_iface_state) + g_cfgA.mtu, "C19: after a Reset only the constant per-interface record remains allocated");
     }
     V_WITNESS("h_reset end");
